@@ -8,6 +8,7 @@ package raft
 import (
 	"encoding/binary"
 	"fmt"
+	"io/ioutil"
 	"os"
 	"path/filepath"
 	"sort"
@@ -251,4 +252,71 @@ func (c *cluster) onTimeoutNowWritten(src *simNode, w *wireMsg) {
 	c.evMu.Lock()
 	c.timeoutNows = append(c.timeoutNows, rec)
 	c.evMu.Unlock()
+}
+
+// diskEntryTerm reads, without opening the log, the term of the entry at index
+// that would be visible after a reopen of storageDir (flushed header counts
+// only). ok=false if the index is not durable there.
+func diskEntryTerm(storageDir string, index uint64) (term uint64, ok bool) {
+	dir := filepath.Join(storageDir, "log")
+	m, _ := filepath.Glob(filepath.Join(dir, "*.log"))
+	var offs []uint64
+	for _, p := range m {
+		v, err := strconv.ParseUint(strings.TrimSuffix(filepath.Base(p), ".log"), 10, 64)
+		if err == nil {
+			offs = append(offs, v)
+		}
+	}
+	if len(offs) == 0 {
+		return 0, false
+	}
+	sort.Slice(offs, func(i, j int) bool { return offs[i] < offs[j] })
+	readSeg := func(off uint64) []byte {
+		b, err := ioutil.ReadFile(filepath.Join(dir, fmt.Sprintf("%d.log", off)))
+		if err != nil || len(b) < 16 {
+			return nil
+		}
+		return b
+	}
+	at := func(b []byte, i uint64) uint64 {
+		p := len(b) - int(i)*8 - 8
+		if p < 0 || p+8 > len(b) {
+			return 0
+		}
+		return binary.LittleEndian.Uint64(b[p:])
+	}
+	// chain like openSegments
+	prev := offs[0]
+	b := readSeg(prev)
+	if b == nil {
+		return 0, false
+	}
+	n := at(b, 0)
+	look := func(b []byte, prev, n uint64) (uint64, bool) {
+		if index <= prev || index > prev+n {
+			return 0, false
+		}
+		k := index - prev // 1-based
+		from, to := at(b, k), at(b, k+1)
+		if to < from+16 || int(to) > len(b) {
+			return 0, false
+		}
+		return binary.LittleEndian.Uint64(b[from+8 : from+16]), true
+	}
+	if t, ok := look(b, prev, n); ok {
+		return t, true
+	}
+	for _, off := range offs[1:] {
+		if n > 0 && off == prev+n {
+			nb := readSeg(off)
+			if nb == nil {
+				return 0, false
+			}
+			prev, b, n = off, nb, at(nb, 0)
+			if t, ok := look(b, prev, n); ok {
+				return t, true
+			}
+		}
+	}
+	return 0, false
 }
